@@ -23,8 +23,8 @@ func init() {
 	core.Register(&core.Check{
 		ID: "C44", Level: "other", Title: "Consensus messages round-trip and signatures bind their content",
 		Technique: "registry exhaustiveness (constants × switch arms × Type() results), codec schema agreement (ordered wire-operation lists of sibling encoders/decoders), struct-tag audit, guard dominance for the signature checks",
-		Explain: "Decided statically. (Registry) every constant of type MsgType has an arm in DeserializeVbftMsg; the arm for constant k constructs a type whose Type() method returns k, and decodes m.Payload into that fresh value (json.Unmarshal / UnmarshalJSON / Deserialize) before returning it; success is dominated by the Len consistency test; SerializeVbftMsg fills Type/Len/Payload from msg.Type(), len(payload), payload = msg.Serialize(). (JSON kinds) every message struct decoded with json.Unmarshal is encoded by json.Marshal of the receiver, every exported field carries a json tag, tags are unique within the struct and none is '-' (a duplicate or missing tag loses a field on the round trip), and no field has a type encoding/json cannot round-trip (func, chan, complex, interface). (Payload) the four codecs of ConsensusPayload — SerializeUnsigned, serializationUnsigned, DeserializeUnsigned, deserializationUnsigned — perform the same ordered list of (wire kind, field) operations; that list covers every field of the struct except Owner, Signature, PeerId and hash; Serialize/Serialization/Deserialize/Deserialization append Owner (public key) and Signature in that order; Verify returns nil only after signature.Verify(this.Owner, <bytes written by this.SerializeUnsigned>, this.Signature) err==nil — so every signed field is bound. (Proposal) blockProposalMsg.Verify returns nil only after signature.Verify(pub, Block.Hash(), sig(SigData[0])) is true and, when an empty block is attached, the same for EmptyBlock. (vbft Block) Serialize writes varbytes(Block) then varbytes(EmptyBlock) when present; Deserialize reads them in that order. NOT decided: that encoding/json and the block/transaction codecs themselves round-trip (C01–C04), mutation-after-signing beyond field coverage.",
-		Run: runC44,
+		Explain:   "Decided statically. (Registry) every constant of type MsgType has an arm in DeserializeVbftMsg; the arm for constant k constructs a type whose Type() method returns k, and decodes m.Payload into that fresh value (json.Unmarshal / UnmarshalJSON / Deserialize) before returning it; success is dominated by the Len consistency test; SerializeVbftMsg fills Type/Len/Payload from msg.Type(), len(payload), payload = msg.Serialize(). (JSON kinds) every message struct decoded with json.Unmarshal is encoded by json.Marshal of the receiver, every exported field carries a json tag, tags are unique within the struct and none is '-' (a duplicate or missing tag loses a field on the round trip), and no field has a type encoding/json cannot round-trip (func, chan, complex, interface). (Payload) the four codecs of ConsensusPayload — SerializeUnsigned, serializationUnsigned, DeserializeUnsigned, deserializationUnsigned — perform the same ordered list of (wire kind, field) operations; that list covers every field of the struct except Owner, Signature, PeerId and hash; Serialize/Serialization/Deserialize/Deserialization append Owner (public key) and Signature in that order; Verify returns nil only after signature.Verify(this.Owner, <bytes written by this.SerializeUnsigned>, this.Signature) err==nil — so every signed field is bound. (Proposal) blockProposalMsg.Verify returns nil only after signature.Verify(pub, Block.Hash(), sig(SigData[0])) is true and, when an empty block is attached, the same for EmptyBlock. (vbft Block) Serialize writes varbytes(Block) then varbytes(EmptyBlock) when present; Deserialize reads them in that order. NOT decided: that encoding/json and the block/transaction codecs themselves round-trip (C01–C04), mutation-after-signing beyond field coverage.",
+		Run:       runC44,
 	})
 }
 
@@ -157,7 +157,9 @@ func runC44(c *core.Ctx) {
 	{
 		okT, okL, okP := false, false, false
 		var ser *ssa.Call
-		for _, ci := range ir.Calls(svm, func(ci ssa.CallInstruction) bool { return ci.Common().IsInvoke() && ci.Common().Method.Name() == "Serialize" }) {
+		for _, ci := range ir.Calls(svm, func(ci ssa.CallInstruction) bool {
+			return ci.Common().IsInvoke() && ci.Common().Method.Name() == "Serialize"
+		}) {
 			ser, _ = ci.(*ssa.Call)
 		}
 		for _, b := range svm.Blocks {
@@ -448,7 +450,10 @@ func runC44(c *core.Ctx) {
 		if ser != nil && des != nil {
 			// writer: payload.WriteVarBytes(sink.Bytes()) where sink got blk.Block.Serialization; second under EmptyBlock != nil
 			var wr []string
-			for _, ci := range ir.Calls(ser, func(ci ssa.CallInstruction) bool { o := ir.CalleeObj(ci); return o != nil && o.Name() == "Serialization" }) {
+			for _, ci := range ir.Calls(ser, func(ci ssa.CallInstruction) bool {
+				o := ir.CalleeObj(ci)
+				return o != nil && o.Name() == "Serialization"
+			}) {
 				_, f, _ := fieldLoad(ci.Common().Args[0])
 				wr = append(wr, f)
 			}
@@ -464,8 +469,14 @@ func runC44(c *core.Ctx) {
 					}
 				}
 			}
-			nvb := len(ir.Calls(des, func(ci ssa.CallInstruction) bool { o := ir.CalleeObj(ci); return o != nil && o.Name() == "NextVarBytes" }))
-			nwb := len(ir.Calls(ser, func(ci ssa.CallInstruction) bool { o := ir.CalleeObj(ci); return o != nil && o.Name() == "WriteVarBytes" }))
+			nvb := len(ir.Calls(des, func(ci ssa.CallInstruction) bool {
+				o := ir.CalleeObj(ci)
+				return o != nil && o.Name() == "NextVarBytes"
+			}))
+			nwb := len(ir.Calls(ser, func(ci ssa.CallInstruction) bool {
+				o := ir.CalleeObj(ci)
+				return o != nil && o.Name() == "WriteVarBytes"
+			}))
 			c.Decide(strings.Join(wr, ",") == "Block,EmptyBlock" && nvb == 2 && nwb == 2 && strings.Join(rd, ",") == "Block,EmptyBlock,Info", "C44.block-codec", ser,
 				"vbft Block: writer emits varbytes(Block) then varbytes(EmptyBlock); reader takes them in that order and sets Block, EmptyBlock, Info", c.P.Rel(ser.Pos()),
 				sprintf("writes %v (%d varbytes), reads %d varbytes, sets %v", wr, nwb, nvb, rd))
